@@ -720,6 +720,30 @@ fn tokenise_entry<I: Iterator<Item = char>>(
                 }
                 State::SkipToEndOfComment
             }
+            (State::UnquotedString, '(') => {
+                if line_continuation {
+                    return Err(Error::TokeniserUnexpected { unexpected: '(' });
+                }
+                if !token_string.is_empty() {
+                    tokens.push((token_string, token_octets.freeze()));
+                    token_string = String::new();
+                    token_octets = BytesMut::new();
+                }
+                line_continuation = true;
+                State::Initial
+            }
+            (State::UnquotedString, ')') => {
+                if !line_continuation {
+                    return Err(Error::TokeniserUnexpected { unexpected: ')' });
+                }
+                if !token_string.is_empty() {
+                    tokens.push((token_string, token_octets.freeze()));
+                    token_string = String::new();
+                    token_octets = BytesMut::new();
+                }
+                line_continuation = false;
+                State::Initial
+            }
             (State::UnquotedString, '\\') => {
                 let octet = tokenise_escape(stream)?;
                 token_string.push(octet as char);
